@@ -11,6 +11,7 @@ var plans = map[string][]planItem{
 	"C14": {{Scenario: "c14", Quick: 2000, Thorough: 150000}},
 	"C15": {{Scenario: "c15", Quick: 3000, Thorough: 200000}},
 	"C18": {{Scenario: "c18", Quick: 3000, Thorough: 200000}},
+	"C20": {{Scenario: "c20", Quick: 3000, Thorough: 200000}},
 	"C06": {{Scenario: "c06", Quick: 3000, Thorough: 200000}},
 	"C07": {{Scenario: "c07", Quick: 1500, Thorough: 60000}},
 	"C08": {{Scenario: "c08", Quick: 4000, Thorough: 300000}},
